@@ -9,6 +9,7 @@ import (
 	"time"
 
 	"github.com/lidofinance/dc4bc/client/types"
+	"github.com/lidofinance/dc4bc/fsm/types/requests"
 
 	"verifharness/oracle"
 	"verifharness/sched"
@@ -291,7 +292,7 @@ func (cw *c07World) judge(c *Ctx, batchIDs map[int]string, expected map[string]m
 }
 
 func checkC07(c *Ctx) {
-	c.Rule = "bounded progress: for n=3,t=2 and two batches, ALL causally feasible board orders of the primary messages (proposals, answers; every choice of the answering set with >= t members per batch; answers may trail into and beyond the next batch) are played with eager polling on one world rewound by snapshots; reconstruction broadcasts follow from the nodes themselves. Seeded sampling beyond: (n,t) in {(2,2),(3,3),(4,2),(4,3),(5,3)}, three batches, random orders, lazy polling with random splits, random slow sets. At quiescence every node must be signing-idle and store a prysm-valid signature for every message of every batch that received >= t answers. distinct = distinct board orders played"
+	c.Rule = "bounded progress: for n=3,t=2 and two batches, ALL causally feasible board orders of the primary messages (proposals, answers; every choice of the answering set with >= t members per batch; answers may trail into and beyond the next batch) are played with eager polling on one world rewound by snapshots; reconstruction broadcasts follow from the nodes themselves. Seeded sampling beyond: (n,t) in {(2,2),(3,3),(4,2),(4,3),(5,3)}, three batches, random orders, lazy polling with random splits, random slow sets. At quiescence every node must be signing-idle and store a prysm-valid signature for every message of every batch that received >= t answers. Further families: two rounds on the same nodes; proposer clocks minutes/hours ahead of or behind the answerers'; ordinary batches after a proposal over an empty baked range. distinct = distinct board orders played"
 	c.Assumptions = []string{"participants are slow, not wrong (no junk shares)", "MemState; cold machines are stateless for signing"}
 	// exhaustive part
 	sets := sched.Subsets(3, 2)
@@ -433,6 +434,8 @@ func checkC07(c *Ctx) {
 		}
 	}
 	c07TwoRounds(c)
+	c07SkewedClocks(c)
+	c07DegenerateProposals(c)
 	// sampled part
 	cfgs := []ntCase{{2, 2}, {3, 3}, {4, 2}, {4, 3}, {5, 3}}
 	per := c.Pick(12, 400)
@@ -602,6 +605,147 @@ func c07TwoRounds(c *Ctx) {
 					}
 					if !valid {
 						c.Violate("C07/batch-with-t-answers-not-reconstructed", fmt.Sprintf("%s holds no valid signature for batch %d (round %d of two on the same nodes, %d answers, t=%d)", nd.Name, bi, k, len(set), ce.T), wit)
+						return
+					}
+				}
+			}
+		}
+	})
+}
+
+// c07SkewedClocks: the participants' machines do not share a clock. A proposal carries the proposer's
+// time stamp, every answer the answering node's; batches whose proposer runs minutes or hours ahead of /
+// behind the others must be reconstructed like any other, and an ordinary batch must follow.
+func c07SkewedClocks(c *Ctx) {
+	skews := []time.Duration{5 * time.Minute, 2 * time.Hour, -5 * time.Minute, -36 * time.Hour}
+	reps := c.Pick(2, 8)
+	Parallel(reps, 4, func(rep int) {
+		seed := c.Seed*191 + uint64(rep)
+		r := sched.Derive(seed, 78)
+		n, t := 3, 2+rep%2
+		ce, err := NewCeremonyVia(seed, n, t, world.RandomPolicy, rep%2 == 1)
+		if err != nil {
+			c.Inconclusive("skewed-clock world: %v", err)
+			return
+		}
+		defer ce.Close()
+		w := ce.W
+		if !ce.AllIn(StIdle) {
+			c.Inconclusive("skewed-clock world: key generation ended %v", ce.States())
+			return
+		}
+		key, _, err := ce.GroupKeyFromMachines()
+		if err != nil {
+			c.Inconclusive("skewed-clock world: %v", err)
+			return
+		}
+		for bi := 0; bi < 2*len(skews); bi++ {
+			p := r.Intn(n)
+			subsets := sched.Subsets(n, t)
+			set := subsets[r.Intn(len(subsets))]
+			spec := BatchSpec{Proposer: p, Signers: set, NoLate: r.Intn(2) == 0}
+			skew := time.Duration(0)
+			if bi%2 == 0 {
+				skew = skews[(bi/2+rep)%len(skews)]
+				req := requests.SigningBatchProposalStartRequest{BatchID: fmt.Sprintf("skew-%d-%d", rep, bi), ParticipantId: p, CreatedAt: now().Add(skew),
+					SigningTasks: []requests.SigningTask{{MessageID: fmt.Sprintf("skewed-%d", bi), File: "f", Payload: r.Bytes(16)}}}
+				msg := world.SignMsg(w.Nodes[p], ce.Round, EvSigningStart, mkReq(req), "")
+				spec.Hand = &msg
+			} else {
+				spec.Data = map[string][]byte{fmt.Sprintf("after-skew-%d", bi): r.Bytes(12)}
+			}
+			wit := map[string]interface{}{"family": "proposer's clock differs from the others'", "n": n, "t": t, "batch": bi, "proposer_clock_offset": skew.String(), "prompt_signers": set, "case_seed": seed}
+			prop, err := ce.RunBatch(spec, world.RandomPolicy)
+			c.Eval(1)
+			c.Add("batches_with_a_skewed_proposer_clock", 1)
+			c.Distinct(fmt.Sprintf("skew|t%d|%s|%d", t, skew, bi%2))
+			if err != nil || prop == nil {
+				c.Violate("C07/schedule-cannot-proceed", fmt.Sprintf("batch %d (proposer's clock offset %s): %v", bi, skew, err), wit)
+				return
+			}
+			bid, msgs, _ := ExpandProposal(prop.Data)
+			for _, nd := range w.Nodes {
+				if st := NodeState(nd, ce.Round); st != StIdle {
+					c.Violate("C07/node-not-idle-at-quiescence", fmt.Sprintf("%s ends in %s after batch %d (proposer's clock offset %s)", nd.Name, st, bi, skew), wit)
+					return
+				}
+				store := SigStore(nd, ce.Round)
+				for _, m := range msgs {
+					valid := false
+					for _, e := range store[bid][m.ID] {
+						if ok, _ := oracle.VerifyG2(key, m.Payload, e.Signature); ok && len(e.Signature) > 0 {
+							valid = true
+						}
+					}
+					if !valid {
+						c.Violate("C07/batch-with-t-answers-not-reconstructed", fmt.Sprintf("%s holds no valid signature for batch %d (proposer's clock offset %s, %d answers, t=%d)", nd.Name, bi, skew, len(set), t), wit)
+						return
+					}
+				}
+			}
+		}
+	})
+}
+
+// c07DegenerateProposals: proposals that nobody can answer - a baked range that contains no position
+// (start == end), offered through the operator's API like any other - must not cost the round its
+// ability to sign: the ordinary batch that follows is answered by t participants and has to be
+// reconstructed on every node.
+func c07DegenerateProposals(c *Ctx) {
+	reps := c.Pick(2, 8)
+	Parallel(reps, 4, func(rep int) {
+		seed := c.Seed*193 + uint64(rep)
+		r := sched.Derive(seed, 79)
+		n, t := 3, 2+rep%2
+		ce, err := NewCeremonyVia(seed, n, t, world.RandomPolicy, rep%2 == 1)
+		if err != nil {
+			c.Inconclusive("degenerate-proposal world: %v", err)
+			return
+		}
+		defer ce.Close()
+		w := ce.W
+		if !ce.AllIn(StIdle) {
+			c.Inconclusive("degenerate-proposal world: key generation ended %v", ce.States())
+			return
+		}
+		key, _, err := ce.GroupKeyFromMachines()
+		if err != nil {
+			c.Inconclusive("degenerate-proposal world: %v", err)
+			return
+		}
+		for bi := 0; bi < 3; bi++ {
+			p := r.Intn(n)
+			at := []int{0, 7, 18631}[bi%3]
+			// whether the API (or later every node) refuses it is not judged here
+			perr := w.ProposeSign(p, ce.Round, nil, &world.Range{Start: at, End: at})
+			w.Run(world.RandomPolicy, 2000)
+			subsets := sched.Subsets(n, t)
+			set := subsets[r.Intn(len(subsets))]
+			wit := map[string]interface{}{"family": "a proposal over an empty baked range, then an ordinary batch", "n": n, "t": t, "empty_range_at": at, "empty_proposal_outcome": fmt.Sprint(perr), "prompt_signers": set, "case_seed": seed}
+			prop, err := ce.RunBatch(BatchSpec{Proposer: r.Intn(n), Signers: set, NoLate: r.Intn(2) == 0, Data: map[string][]byte{fmt.Sprintf("after-empty-%d", bi): r.Bytes(12)}}, world.RandomPolicy)
+			c.Eval(1)
+			c.Add("ordinary_batches_after_an_empty_range_proposal", 1)
+			c.Distinct(fmt.Sprintf("empty-range|t%d|%d", t, at))
+			if err != nil || prop == nil {
+				c.Violate("C07/schedule-cannot-proceed", fmt.Sprintf("the ordinary batch after a proposal over the empty range %d..%d: %v (states %v)", at, at, err, ce.States()), wit)
+				return
+			}
+			bid, msgs, _ := ExpandProposal(prop.Data)
+			for _, nd := range w.Nodes {
+				if st := NodeState(nd, ce.Round); st != StIdle {
+					c.Violate("C07/node-not-idle-at-quiescence", fmt.Sprintf("%s ends in %s after the batch that followed an empty-range proposal", nd.Name, st), wit)
+					return
+				}
+				store := SigStore(nd, ce.Round)
+				for _, m := range msgs {
+					valid := false
+					for _, e := range store[bid][m.ID] {
+						if ok, _ := oracle.VerifyG2(key, m.Payload, e.Signature); ok && len(e.Signature) > 0 {
+							valid = true
+						}
+					}
+					if !valid {
+						c.Violate("C07/batch-with-t-answers-not-reconstructed", fmt.Sprintf("%s holds no valid signature for the batch that followed an empty-range proposal (%d answers, t=%d)", nd.Name, len(set), t), wit)
 						return
 					}
 				}
